@@ -56,6 +56,13 @@ def check(ctx):
     r03_6(ctx, run, info)
     ctx.not_decided.append("BGZF virtual-offset behaviour across 64 KiB blocks inside pysam (tell/seek contract)")
     ctx.assumptions.append("pysam BGZFile.tell() before a readline() returns a virtual offset that seek() resolves to the start of that line")
+    # mechanisms this property rests on (see shared.py): a change there is reported here as well
+    from . import shared as _sh
+
+    _sh.gaf_reader(ctx)
+    _sh.graph_loader(ctx)
+    _sh.contig_paths(ctx)
+    _sh.cli_layer(ctx, "gaftools.cli.index")
 
 
 def r03_1(ctx, run):
